@@ -136,57 +136,34 @@ Proof. intros W. unfold txin_wfB in W. apply andb_true_iff in W as [W _]. apply 
   destruct (has_issuance i) eqn:HI.
   - cbn [opt_default]. destruct (in_iss i) as [n e a k]. cbn [i_nonce i_entropy i_amount i_keys]. destruct a, k; reflexivity.
   - cbn [orb] in Wd. apply issuance_default_eq in Wd. rewrite Wd. reflexivity. Qed.
-(* the PSET input built from a transaction input carries the outpoint index WITH the pegin / issuance flag bits *)
+(* the PSET input built from a transaction input carries the outpoint index WITH the pegin / issuance flag bits ... *)
 Theorem pset_view_index i : pi_index (psetin_from_txin i) = wire_vout i. Proof. reflexivity. Qed.
-(* ... and pset::Input::issuance_ids hashes that flagged index for a new issuance (finding F10) *)
-Theorem pset_view_ids i : txin_wfB i = true ->
-  PIDS (psetin_from_txin i) =
-  ids_of_entropy (if bytes_eqb (i_nonce (in_iss i)) zero32
-                  then cmp (H (enc c_outpoint {| o_txid := o_txid (in_prev i); o_vout := wire_vout i |})) (i_entropy (in_iss i))
-                  else i_entropy (in_iss i))
-                 (value_is_confidential (i_amount (in_iss i))).
-Proof. intros W. pose proof (psetin_issuance_back i W) as B. unfold psetin_issuance_ids.
-  assert (En : opt_default zero32 (pi_nonce (psetin_from_txin i)) = i_nonce (in_iss i)) by (rewrite <- B; reflexivity).
-  assert (Ee : opt_default zero32 (pi_entropy (psetin_from_txin i)) = i_entropy (in_iss i)) by (rewrite <- B; reflexivity).
-  rewrite En, Ee. unfold ids_of_entropy, generate_asset_entropy. rewrite fmr2.
-  assert (Ec : match pi_amount_comm (psetin_from_txin i) with Some _ => true | None => false end = value_is_confidential (i_amount (in_iss i))).
-  { destruct (has_issuance i) eqn:HI; [now apply amount_conf_view|]. unfold psetin_from_txin. cbn [pi_amount_comm]. rewrite HI.
-    unfold has_issuance in HI. apply negb_false_iff in HI. unfold issuance_is_null in HI. apply andb_true_iff in HI as [Ha _]. destruct (i_amount (in_iss i)); try discriminate. reflexivity. }
-  rewrite Ec. reflexivity. Qed.
-(* the known class of F10: a new issuance (zero blinding nonce) on an input whose serialized index carries a flag bit *)
-Definition known_F10 (i : txin) : bool := bytes_eqb (i_nonce (in_iss i)) zero32 && (in_pegin i || has_issuance i).
-Theorem three_views_pset i : txin_wfB i = true -> known_F10 i = false -> PIDS (psetin_from_txin i) = IDS i.
-Proof. intros W K. rewrite (pset_view_ids i W), ids_formula. unfold known_F10 in K.
-  destruct (bytes_eqb (i_nonce (in_iss i)) zero32); [|reflexivity]. cbn [andb] in K. apply orb_false_iff in K as [Kp Ki].
-  unfold wire_vout. rewrite Kp, Ki, !N.lor_0_r. destruct (in_prev i); reflexivity. Qed.
-(* inside the class the hashed outpoint really is a different byte string *)
-Theorem F10_preimage_differs i : txin_wfB i = true -> known_F10 i = true -> o_vout (in_prev i) < bit30 ->
-  enc c_outpoint {| o_txid := o_txid (in_prev i); o_vout := wire_vout i |} <> enc c_outpoint (in_prev i).
-Proof. intros W K Hv E. unfold known_F10 in K. apply andb_true_iff in K as [_ K].
-  assert (Hw : wire_vout i <> o_vout (in_prev i)).
-  { unfold wire_vout. fold B30 in Hv. pose proof (join_arith (o_vout (in_prev i)) (in_pegin i) (has_issuance i) Hv) as J. unfold join, B30, B31 in J. unfold bit30, Tx.bit31. rewrite J.
-    destruct (in_pegin i), (has_issuance i); cbn [orb] in K; try discriminate; cbv beta iota; generalize (o_vout (in_prev i)); clear; intros n; lia. }
-  assert (Hlt : wire_vout i < 2 ^ 32).
-  { unfold wire_vout. fold B30 in Hv. pose proof (join_arith (o_vout (in_prev i)) (in_pegin i) (has_issuance i) Hv) as J. unfold join, B30, B31 in J. unfold bit30, Tx.bit31. rewrite J.
-    unfold bit30 in Hv. change (2^32) with 4294967296. destruct (in_pegin i), (has_issuance i); cbv beta iota; lia. }
-  cbn [c_outpoint c_conv enc c_pair c_hash32 c_fixed o_txid o_vout] in E. apply app_inv_head in E.
-  apply Hw. rewrite <- (le_val_enc 4 (wire_vout i)), <- (le_val_enc 4 (o_vout (in_prev i))).
-  - cbn [c_u32 c_le enc] in E. now rewrite E.
-  - replace (256 ^ N.of_nat 4) with (2^32) by (vm_compute; reflexivity). unfold bit30 in Hv. change (2^32) with 4294967296. lia.
-  - replace (256 ^ N.of_nat 4) with (2^32) by (vm_compute; reflexivity). exact Hlt. Qed.
-(* third view: the input of the extracted transaction yields the ids of the original input, for every canonical input *)
-Lemma extract_prev i : txin_wfB i = true -> in_prev (psetin_extract (psetin_from_txin i)) = in_prev i.
-Proof. intros W. unfold psetin_extract, psetin_from_txin. cbn [in_prev pi_txid pi_index].
-  destruct i as [[t v] pg s q iss w]. cbn [in_prev o_txid o_vout in_pegin] in *. set (hi := has_issuance _) in *.
+(* ... which pset::Input::issuance_ids strips again before hashing the outpoint *)
+Lemma plain_index_back i : txin_wfB i = true ->
+  (if wire_vout i =? u32max then wire_vout i else N.land (wire_vout i) 1073741823) = o_vout (in_prev i).
+Proof. intros W. destruct i as [[t v] pg s q iss w]. unfold wire_vout. cbn [in_prev o_txid o_vout in_pegin] in *. set (hi := has_issuance _) in *.
   unfold txin_wfB in W. cbn [in_prev o_vout in_pegin in_iss in_wit] in W. fold hi in W. apply andb_true_iff in W as [W _]. apply andb_true_iff in W as [Wv _].
   apply orb_true_iff in Wv as [Wv|Wv].
   - apply andb_true_iff in Wv as [Wlt Wnt]. apply N.ltb_lt in Wlt. fold B30 in Wlt.
     assert (Hn : ~ (v = MASK /\ pg = true /\ hi = true)). { intros (E1 & E2 & E3). subst v pg. rewrite E3 in Wnt. cbn in Wnt. discriminate. }
     destruct (join_read v pg hi Wlt Hn) as (Hne & _ & _ & _ & Hm). unfold join, B30, B31 in *. fold bit30 Tx.bit31 in *.
     destruct (N.eqb_spec (N.lor (N.lor v (if pg then bit30 else 0)) (if hi then Tx.bit31 else 0)) u32max) as [E|_]; [exfalso; apply Hne; exact E|].
-    change 1073741823 with MASK. rewrite Hm. reflexivity.
+    change 1073741823 with MASK. exact Hm.
   - apply andb_true_iff in Wv as [Wv Wni]. apply andb_true_iff in Wv as [Wv Wnp]. apply N.eqb_eq in Wv. subst v.
     destruct pg; [discriminate|]. destruct hi; [discriminate|]. rewrite !N.lor_0_r. reflexivity. Qed.
+Theorem three_views_pset i : txin_wfB i = true -> PIDS (psetin_from_txin i) = IDS i.
+Proof. intros W. pose proof (psetin_issuance_back i W) as B. unfold psetin_issuance_ids, txin_issuance_ids.
+  assert (En : opt_default zero32 (pi_nonce (psetin_from_txin i)) = i_nonce (in_iss i)) by (rewrite <- B; reflexivity).
+  assert (Ee : opt_default zero32 (pi_entropy (psetin_from_txin i)) = i_entropy (in_iss i)) by (rewrite <- B; reflexivity).
+  rewrite En, Ee. rewrite pset_view_index, (plain_index_back i W).
+  assert (Ec : match pi_amount_comm (psetin_from_txin i) with Some _ => true | None => false end = value_is_confidential (i_amount (in_iss i))).
+  { destruct (has_issuance i) eqn:HI; [now apply amount_conf_view|]. unfold psetin_from_txin. cbn [pi_amount_comm]. rewrite HI.
+    unfold has_issuance in HI. apply negb_false_iff in HI. unfold issuance_is_null in HI. apply andb_true_iff in HI as [Ha _]. destruct (i_amount (in_iss i)); try discriminate. reflexivity. }
+  rewrite Ec. change (pi_txid (psetin_from_txin i)) with (o_txid (in_prev i)). destruct (in_prev i); reflexivity. Qed.
+(* third view: the input of the extracted transaction yields the ids of the original input, for every canonical input *)
+Lemma extract_prev i : txin_wfB i = true -> in_prev (psetin_extract (psetin_from_txin i)) = in_prev i.
+Proof. intros W. unfold psetin_extract. cbn [in_prev]. rewrite pset_view_index, (plain_index_back i W).
+  change (pi_txid (psetin_from_txin i)) with (o_txid (in_prev i)). destruct (in_prev i); reflexivity. Qed.
 Theorem three_views_extract i : txin_wfB i = true -> IDS (psetin_extract (psetin_from_txin i)) = IDS i.
 Proof. intros W. unfold txin_issuance_ids. rewrite (extract_prev i W).
   change (in_iss (psetin_extract (psetin_from_txin i))) with (psetin_asset_issuance (psetin_from_txin i)).
